@@ -109,17 +109,22 @@ type tagEval struct {
 	loadHookEnv func(load *ssa.UnOp, val func(ssa.Value) aval) (aval, bool)
 	storeObs    func(st *ssa.Store, v aval, val func(ssa.Value) aval)
 	binopHook   func(bo *ssa.BinOp) (aval, bool)
-	globals     map[*ssa.Global]map[string]constant.Value // string-keyed constant maps built in init
-	tables      map[*ssa.Global]map[int64]*ssa.Function   // package-level arrays/maps of functions, by constant index
+	// descendUnknown: evaluate library callees also when none of their arguments is known (the
+	// rule's hooks decide what happens inside: a wrapper around a hooked call must be entered)
+	descendUnknown bool
+	// assertKnown: a type assertion on a known string constant is decided (string: yes, other concrete types: no)
+	assertKnown bool
+	globals        map[*ssa.Global]map[string]constant.Value // string-keyed constant maps built in init
+	tables         map[*ssa.Global]map[int64]*ssa.Function   // package-level arrays/maps of functions, by constant index
 	// heap of abstract struct objects (field index -> value); shared by all frames, so a
 	// fork on an undecided condition while it is in use makes the results unreliable
 	// lookupHook answers a map lookup (value, found); mapUpdateObs observes m[k] = v; makeMapHook names a fresh map
 	lookupHook   func(l *ssa.Lookup, m, k aval) ([]aval, bool)
 	mapUpdateObs func(u *ssa.MapUpdate, m, k, v aval)
 	makeMapHook  func(mm *ssa.MakeMap) (aval, bool)
-	heap       map[int64]map[int]aval
-	nextObj    int64
-	heapForked bool
+	heap         map[int64]map[int]aval
+	nextObj      int64
+	heapForked   bool
 	// unevaluated counts calls to library functions with a body that were not followed
 	// because nothing was known about their arguments
 	unevaluated int
@@ -444,6 +449,30 @@ func (te *tagEval) run(fr *frame, b *ssa.BasicBlock, pred *ssa.BasicBlock, depth
 						}
 						fr.env[x] = res
 					}
+				} else if xv.K == aList || (xv.K == aConst && xv.C != nil && xv.C.Kind() == constant.String && te.assertKnown) {
+					// a known list / a known string behind an interface: the assertion is decided by its shape
+					success := false
+					switch u := x.AssertedType.Underlying().(type) {
+					case *types.Slice:
+						success = xv.K == aList
+					case *types.Basic:
+						success = xv.K == aConst && u.Info()&types.IsString != 0
+					case *types.Interface:
+						success = u.NumMethods() == 0
+					}
+					res := aval{}
+					if success {
+						res = xv
+					}
+					if x.CommaOk {
+						fr.tuples[x] = []aval{res, {K: aConst, C: constant.MakeBool(success)}}
+					} else {
+						if !success {
+							*outs = append(*outs, outcome{Panic: true, Pos: x.Pos(), Why: fmt.Sprintf("unchecked assertion .(%s) on %s", typeString(x.AssertedType), xv)})
+							return
+						}
+						fr.env[x] = res
+					}
 				} else if x.CommaOk {
 					fr.tuples[x] = []aval{{}, {}}
 				}
@@ -699,6 +728,14 @@ func (te *tagEval) binop(op token.Token, a, b aval) (aval, bool) {
 			return aval{K: aConst, C: constant.MakeBool(op == token.NEQ)}, true
 		}
 	}
+	// a known list, or a known constant held in an interface, is not nil
+	if op == token.EQL || op == token.NEQ {
+		isNil := func(x aval) bool { return (x.K == aConst && x.C == nil) || (x.K == aTag && x.Tag == nil) }
+		nonNil := func(x aval) bool { return x.K == aList || (x.K == aConst && x.C != nil && x.C.Kind() == constant.String) }
+		if (nonNil(a) && isNil(b)) || (nonNil(b) && isNil(a)) {
+			return aval{K: aConst, C: constant.MakeBool(op == token.NEQ)}, true
+		}
+	}
 	// a known non-nil concrete value compared with the nil constant
 	if op == token.EQL || op == token.NEQ {
 		if (a.K == aConcrete && b.K == aConst && b.C == nil) || (b.K == aConcrete && a.K == aConst && a.C == nil) {
@@ -796,6 +833,13 @@ func (te *tagEval) call(fr *frame, call *ssa.Call, depth int, outs *[]outcome) {
 				return
 			}
 		}
+	case "strings.Compare":
+		if a, ok := constStr(0); ok {
+			if b, ok := constStr(1); ok {
+				fr.env[call] = aval{K: aConst, C: constant.MakeInt64(int64(strings.Compare(a, b)))}
+				return
+			}
+		}
 	case "strings.Cut":
 		if a, ok := constStr(0); ok {
 			if sep, ok := constStr(1); ok {
@@ -863,7 +907,7 @@ func (te *tagEval) call(fr *frame, call *ssa.Call, depth int, outs *[]outcome) {
 			known = true
 		}
 	}
-	if !known {
+	if !known && !(te.descendUnknown && depth < 3) {
 		te.unevaluated++
 		return
 	}
